@@ -125,7 +125,7 @@ pub mod k {
     pub const NEW_MAXSTREAMS_AT: i128 = 92; // us: the server calls set_max_concurrent_streams on every connection
     pub const NEW_MAX_BIDI: i128 = 93; // ... with these values (-1 = leave)
     pub const NEW_MAX_UNI: i128 = 94;
-    pub const RESET_FORGE: i128 = 95; // 1: whenever the client puts a long-header datagram on the wire, the attacker sends it a short-header datagram addressed to that datagram's source CID and ending in the token of a stateless reset it has OBSERVED earlier (a token that belongs to some other, older connection ID)
+    pub const RESET_FORGE: i128 = 95; // 1: whenever the client puts a long-header datagram on the wire, the attacker sends it a short-header datagram addressed to that datagram's source CID and ending in the token of a stateless reset it has OBSERVED earlier (a token that belongs to some other, older connection ID); 2: forged reset with the token of a retired server CID after the client moved; 3: forged Retry / Version Negotiation packets with a CONNECTION_CLOSE-shaped payload to both endpoints from CLOSE_AT on
     pub const CLOSE_REASON_LEN: i128 = 96; // length of the reason phrase of the application close (default 3)
     pub const SPOOF_FRESH_AT: i128 = 97; // us: the first client datagram put on the wire at or after this instant reaches the server ONLY as a copy from the attacker's address (the original is lost): the server sees a fresh, highest-numbered packet from a foreign address once
     pub const SPOOF_FRESH_BLACKOUT: i128 = 98; // us: after that spoofed copy every client datagram is lost for this long
@@ -350,6 +350,7 @@ pub struct World {
     spoof_fresh_t: u64,
     first_server_cid: Option<Vec<u8>>,
     first_client_cid: Option<Vec<u8>>,
+    forge3_cid: [Option<Vec<u8>>; 2],
     forge2_done: bool,
 }
 
@@ -534,6 +535,7 @@ impl World {
             spoof_fresh_t: 0,
             first_server_cid: None,
             first_client_cid: None,
+            forge3_cid: [None, None],
             forge2_done: false,
             p,
         };
@@ -808,6 +810,48 @@ impl World {
                 }
             }
         }
+        if self.p.get(k::RESET_FORGE, 0) == 3 && src_ep < 2 {
+            // 3: from CLOSE_AT on, every datagram on the wire makes the attacker send both endpoints a
+            // Retry and a Version Negotiation packet - neither is protected by any key - addressed to
+            // the connection ID the endpoint announced in its long-header packets, with a payload that
+            // reads as a CONNECTION_CLOSE frame, spoofed from the peer's address
+            if data.len() > 7 && data[0] & 0x80 != 0 {
+                let dl = data[5] as usize;
+                if 6 + dl < data.len() {
+                    let sl = data[6 + dl] as usize;
+                    if 7 + dl + sl <= data.len() {
+                        self.forge3_cid[src_ep] = Some(data[7 + dl..7 + dl + sl].to_vec());
+                    }
+                }
+            }
+            let close_at = self.p.get(k::CLOSE_AT, 0);
+            if close_at > 0 && self.now as i128 >= close_at && self.injected < 400 {
+                for target in 0..2usize {
+                    let Some(cid) = self.forge3_cid[target].clone() else { continue };
+                    let (fsrc, fdst) = if target == src_ep { (dst, src) } else { (src, dst) };
+                    let mut retry = vec![0xf1u8, 0, 0, 0, 1, cid.len() as u8];
+                    retry.extend_from_slice(&cid);
+                    retry.push(8);
+                    retry.extend_from_slice(&[0xEE; 8]);
+                    retry.extend_from_slice(&[0x1c, 0, 0, 0]);
+                    retry.extend_from_slice(&[0; 20]);
+                    retry.extend_from_slice(&[0x5A; 16]);
+                    let mut vn = vec![0x80u8 | 0x2a, 0, 0, 0, 0, cid.len() as u8];
+                    vn.extend_from_slice(&cid);
+                    vn.push(8);
+                    vn.extend_from_slice(&[0xEE; 8]);
+                    vn.extend_from_slice(&[0x1c, 0, 0, 0, 0x0a, 0x1a, 0x2a, 0x3a]);
+                    for f in [retry, vn] {
+                        self.seq += 1;
+                        self.injected += 1;
+                        let fs = self.addr_id(fsrc);
+                        let fd = self.addr_id(fdst);
+                        self.trace.push(vec![9, t, -1, 7, fs, fd, f.len() as i128]);
+                        self.net.push(Pkt { at: self.now + 1 + self.rng.below(2000), seq: self.seq, src: fsrc, dst: fdst, ecn: None, data: f, origin: -2, kind: 7 });
+                    }
+                }
+            }
+        }
         // only connection IDs of the warm-up phase (their connections are gone when phase 2 starts)
         if self.p.get(k::RESET_FORGE, 0) == 1 && src_ep == 1 && self.now < 900_000 && data.len() > 7 && data[0] & 0x80 != 0 {
             let dl = data[5] as usize;
@@ -1022,17 +1066,27 @@ impl World {
                                     out.extend_from_slice(&scid);
                                     out.push(dcid.len() as u8);
                                     out.extend_from_slice(&dcid);
-                                    out.extend_from_slice(&[0x0a, 0x1a, 0x2a, 0x3a, 0xff, 0, 0, 0x1d]);
+                                    // the "version list" starts with the bytes of a CONNECTION_CLOSE frame
+                                    // (0x1c, error 0, frame type 0, empty reason): a connection that treated
+                                    // the payload of this unauthenticated packet as frames would start draining
+                                    out.extend_from_slice(&[0x1c, 0, 0, 0, 0x0a, 0x1a, 0x2a, 0x3a, 0xff, 0, 0, 0x1d]);
                                 }
                                 _ => {
                                     // Retry towards the sender of `g` with a made-up tag
-                                    out.push(0xf0 | (self.rng.below(16) as u8));
+                                    let nib = self.rng.below(16) as u8;
+                                    out.push(0xf0 | nib);
                                     out.extend_from_slice(&g[1..5]);
                                     out.push(scid.len() as u8);
                                     out.extend_from_slice(&scid);
                                     out.push(8);
                                     out.extend_from_slice(&[0xEE; 8]);
-                                    out.extend_from_slice(&[0x77; 24]);
+                                    if nib & 1 == 1 {
+                                        // a "token" that reads as CONNECTION_CLOSE + PADDING (see above)
+                                        out.extend_from_slice(&[0x1c, 0, 0, 0]);
+                                        out.extend_from_slice(&[0; 20]);
+                                    } else {
+                                        out.extend_from_slice(&[0x77; 24]);
+                                    }
                                     for _ in 0..16 {
                                         out.push(self.rng.below(256) as u8);
                                     }
